@@ -3,7 +3,7 @@ sys.path.insert(0, os.path.dirname(os.path.abspath(__file__)))
 from _util import c
 
 CHECKS = {
-    "C32": c("relays", "TestC32", dict(checks=500, timeout=600), dict(checks=1000, shards=14, timeout=1500),
+    "C32": c("relays", "TestC32", dict(checks=400, timeout=600), dict(checks=1000, shards=14, timeout=1500),
              technique="property-based testing of generated claim/proof transaction histories on the chain simulator (real application, "
                        "real MsgClaim/MsgProof built by a relay factory) with a trace monitor: model of legitimate claims and required leaves, "
                        "supply measured around every transaction, claims store compared with the model after every block",
@@ -17,23 +17,23 @@ CHECKS = {
                         "code (a claim is accepted up to and including the block whose header reveals the entropy; that rule itself is C31's subject). "
                         "Below height 69583 the reward code pays nothing to a servicer with a separate non-validator output address (main-net incident replay): "
                         "the model expects a zero mint there."),
-    "C35": c("relays", "TestC35", dict(checks=500, timeout=600), dict(checks=1500, shards=14, timeout=1500),
+    "C35": c("relays", "TestC35", dict(checks=400, timeout=600), dict(checks=1500, shards=14, timeout=1500),
              technique="single-alteration (mutation-style) input generation against the real pocketcore keeper of a chain-simulator node: every relay is a valid relay "
                        "from the relay factory with at most one authorization element altered; oracle = rejection with unchanged evidence and no backend call, "
                        "plus non-vacuity (unaltered relays served, signed by the node key, recorded exactly once)",
              design_ref="DESIGN.md §7 C35",
              level_text="34 alteration kinds x generated worlds (1-3 peers, 2-4 blocks per session, context anywhere in sessions 2-4, lean / non-lean node mode, "
-                        "session sync allowance 0-1), about 6 000 relays per quick run; exploration only, no absence claim. Only single alterations are generated.",
+                        "session sync allowance 0-1), about 9 000 relays per quick run; exploration only, no absence claim. Only single alterations are generated.",
              level_note="Keeper level: HandleRelay is called directly with the context app.NewContext(lastHeight) builds; the RPC layer (JSON decoding, sync-status gate) is "
                         "not exercised. The hosted chain is an in-process HTTP server registered through Keeper.SetHostedBlockchains on the application's own keeper. "
                         "Stakes are laid out so that session membership is decidable without re-implementing selection."),
-    "C34": c("relays", "TestC34", dict(checks=450, timeout=600), dict(checks=4000, shards=14, timeout=1500),
+    "C34": c("relays", "TestC34", dict(checks=250, timeout=600), dict(checks=4000, shards=14, timeout=1500),
              technique="schedule exploration with a harness-owned deterministic scheduler: the build-tag hook pocketTypes.VerifYield parks every goroutine between relay "
                        "validation and proof storage and between reading and writing back the evidence; a rapid-drawn sequence of goroutine ids decides who runs next "
                        "(one goroutine at a time); invariants on the stored evidence are checked at quiescence",
              design_ref="DESIGN.md §7 C34",
              level_text="Schedules of 2-5 relay goroutines (identical and distinct relays of one session, 0-3 relays already stored, per-node limit 2-4) plus an optional sealing "
-                        "goroutine that does what the claim sender does; 6 schedules per generated world, about 1 800 schedules per quick run. Exploration bounded to the "
+                        "goroutine that does what the claim sender does; 6 schedules per generated world, 1 500 schedules per quick run. Exploration bounded to the "
                         "two instrumented yield points (plus one harness-level point between the sealer's read and its seal): interleavings inside other "
                         "functions are not explored; no absence claim.",
              level_note="Trusts the scheduler (goroutine identity from runtime.Stack; a goroutine blocked on a lock is recognised from its runtime status) and the hook "
